@@ -111,7 +111,7 @@ def main():
         "setup_cmd": "bin/setup",
         "hooks": {
             "guard": "cargo features verif-hooks (read-only accessors) and verif-hooks-aux (re-export of the private phase accumulator and numeric helpers)",
-            "enable": "the harness crate depends on /repo with features = [\"verif-hooks\"] and, through its default feature aux-hooks, verif-hooks-aux (harness/Cargo.toml); bin/check falls back to building without aux-hooks if the re-export does not compile in the tree under test",
+            "enable": "the harness crate depends on /repo with features = [\"verif-hooks\"] and, through its default feature aux-hooks, verif-hooks-aux (harness/Cargo.toml); bin/check falls back to building without aux-hooks, then without core-hooks, if a hook does not compile in the tree under test (the steps that need it are skipped; C01-C03 need core-hooks)",
             "baseline_off_cmd": "cd /repo && cargo test --workspace --no-fail-fast --offline",
             "source_commits": plan.HOOK_COMMITS,
             "add_only": True,
